@@ -286,9 +286,17 @@ def base_case(ctx, rng, idx):
 
     # ---- the same numbers in another container / dtype
     # (filters document np.ndarray inputs: array forms only)
-    form = FM.pick(rng, ['readonly', 'strided', 'fortran', 'int64', 'int32'])
-    is_int = form in ('int64', 'int32')
-    if is_int:
+    form = FM.pick(rng, ['readonly', 'strided', 'fortran', 'int64', 'int32',
+                         'float32', 'int16'])
+    is_int = form in ('int64', 'int32', 'int16')
+    if form == 'int16':
+        # small counts stored in a 16-bit integer array
+        unit_ = float(np.nanmax(np.abs(sim))) / 300.0
+        obs_f = obs if has_nan else np.round(obs / unit_)
+        sim_f = np.round(sim / unit_)
+    elif form == 'float32':
+        obs_f, sim_f = FM.round32(obs), FM.round32(sim)
+    elif is_int:
         obs_f = obs if has_nan else np.round(obs * 10)
         sim_f = np.round(sim * 10)
         # integer data with a degenerate (zero-spread) cell is not generated
@@ -297,10 +305,14 @@ def base_case(ctx, rng, idx):
                 np.any(np.std(obs_f, axis=0) < 0.5)):
             is_int, form = False, 'strided'
             obs_f, sim_f = obs, sim
-    else:
+    elif form != 'float32':
         obs_f, sim_f = obs, sim
-    ov = obs_f if (has_nan and is_int) else FM.variant(obs_f, form)
-    sv = FM.variant(sim_f, form)
+    if form == 'int16':
+        ov = obs_f if has_nan else obs_f.astype(np.int16)
+        sv = sim_f.astype(np.int16)
+    else:
+        ov = obs_f if (has_nan and is_int) else FM.variant(obs_f, form)
+        sv = FM.variant(sim_f, form)
     if ov is not None and sv is not None:
         try:
             fv = make_filter(cname, ov, k)
